@@ -64,6 +64,9 @@ func c05SetElem(kind int) Object {
 
 func c05SetOrder(kinds int) {
 	n := 2 + verifrt.Choose(2)
+	if kinds == 4 && !verifrt.Thorough() {
+		n = 2 // with floats: two elements in the quick tier (hashing a float decides integrality in the FP solver)
+	}
 	s := NewSetWithSize(n)
 	for i := 0; i < n; i++ {
 		s.Add(c05SetElem(verifrt.Choose(kinds)))
